@@ -1913,8 +1913,10 @@ def k_operation_selection(R, nops):
 
     def stub_module(vm, st, callee, args, dest, ret_bb, m):
         gm = args[0] if isinstance(args[0], Agg) else vm.load(st, args[0])
-        op = S.as_str(vm, st, gm.fields[R.L.structs['GeneratedModule'].index('operation')])
-        return vm.ret(st, dest, ret_bb, Agg(0, [Tokens([('module', op.s)])], 'Result'))
+        gmf = R.L.structs['GeneratedModule']
+        op = S.as_str(vm, st, gm.fields[gmf.index('operation')])
+        oid = gm.fields[gmf.index('operation_id')].fields[0] if 'operation_id' in gmf else None
+        return vm.ret(st, dest, ret_bb, Agg(0, [Tokens([('module', op.s, oid)])], 'Result'))
 
     def stub_error(vm, st, callee, args, dest, ret_bb, m):
         return vm.ret(st, dest, ret_bb, StrV('operation not found'))
@@ -1924,11 +1926,10 @@ def k_operation_selection(R, nops):
     def setup(st, B):
         holder['B'] = B
         st.pc += [z3.ULT(has_want, 2), z3.ULT(mode, len(modes)), z3.ULT(norm, len(norms))]
-        # operation names in one document are distinct, also after normalization (else two `struct X;` items collide)
+        # operation names in one document are distinct (they may still coincide after normalization)
         for i in range(nops):
             for j in range(i + 1, nops):
                 st.pc.append(names[i] != names[j])
-                st.pc.append(CAMEL_OF(R, names[i]) != CAMEL_OF(R, names[j]))
         opts = options_value(B, mode=SymEnum(mode, {i: () for i in range(len(modes))}), operation_name=SymEnum(has_want, {0: (), 1: (StrV(want),)}),
                              normalization=SymEnum(norm, {i: () for i in range(len(norms))}))
         doc = Opaque('QueryDocument')
@@ -1963,7 +1964,10 @@ def k_operation_selection(R, nops):
             allops = z3.And(mode == i_cli, has_want == 0, z3.BoolVal(len(mods) == nops), *[zstr(mods[i]) == names[i] for i in range(min(len(mods), nops))]) if len(mods) == nops else z3.BoolVal(False)
             # documented CLI fallback: an explicit name that matches nothing generates all operations
             fallback = z3.And(mode == i_cli, has_want == 1, z3.Not(any_match), z3.BoolVal(len(mods) == nops), *[zstr(mods[i]) == names[i] for i in range(min(len(mods), nops))]) if len(mods) == nops else z3.BoolVal(False)
-            claim = z3.And(z3.BoolVal(ok_shape), z3.Or(sel, allops, fallback))
+            # the operation whose types the module is generated from is the one it is named after
+            same_op = z3.And(*[z3.Implies(zstr(t[1]) == names[i], t[2] == bv(i, 32)) for t in toks.items if t[0] == 'module' and len(t) > 2 and t[2] is not None
+                               for i in range(nops)])
+            claim = z3.And(z3.BoolVal(ok_shape), z3.Or(sel, allops, fallback), same_op)
             what = 'modules generated for other operations than the selected one'
         m = R.prove('operation_selection', o, claim, what)
         if m is not None:
@@ -1972,6 +1976,53 @@ def k_operation_selection(R, nops):
                             operation_name=ev(want).as_string() if ev(has_want).as_long() == 1 else None, operations=[ev(n).as_string() for n in names],
                             camel=[ev(CAMEL_OF(R, n)).as_string() for n in names], result=('Err' if v.variant == 1 else [str(ev(zstr(t[1]))) for t in v.fields[0].items])))
     R.sample(dict(kernel='operation_selection', operations=nops, paths=len(outs)))
+    return out
+
+
+def k_module_root(R, nops=2):
+    """GeneratedModule::root (where it exists): the operation a module's Variables / ResponseData are generated from is the
+    operation the module is named after - also when several operation names coincide after normalization."""
+    cands_fn = [fn for n, fn in R.L.funcs.items() if n.endswith('::root') and fn.params and 'GeneratedModule' in fn.params[0][1]]
+    if not cands_fn:
+        R.sample(dict(kernel='module_root', note='no GeneratedModule::root in this tree (the operation id is passed in)'))
+        return []
+    f = cands_fn[0]
+    norms = R.L.enums['Normalization']
+    names = [z3.String(f'mr_op{i}') for i in range(nops)]
+    norm, k = z3.BitVec('mr_norm', 8), z3.BitVec('mr_k', 32)
+    out = []
+
+    def setup(st, B):
+        st.pc += [z3.ULT(norm, len(norms)), z3.ULT(k, nops)]
+        for i in range(nops):
+            for j in range(i + 1, nops):
+                st.pc.append(names[i] != names[j])
+        ops = [B.struct('ResolvedOperation', name=StrV(n), _operation_type=B.variant('OperationType', 'Query'), selection_set=VecV(()), object_id=B.newtype('ObjectId', bv(0, 32)))
+               for n in names]
+        q = B.struct('Query', fragments=VecV(()), operations=VecV(ops), selection_parent_idx=B.btreemap([]), selections=VecV(()), variables=VecV(()))
+        me = names[-1]
+        for i in reversed(range(nops - 1)):
+            me = z3.If(k == i, names[i], me)
+        opts = options_value(B, normalization=SymEnum(norm, {i: () for i in range(len(norms))}))
+        gm = B.struct('GeneratedModule', operation=StrV(me), query_string=StrV('q'), resolved_query=B.cell(q), schema=B.cell(mini_schema(B)), options=B.cell(opts),
+                      opt_operation_id=B.newtype('OperationId', k))
+        R.vm.push_call(st, f, [B.cell(gm)], None, None)
+    outs, _ = R.explore('GeneratedModule::root', setup)
+    for o in outs:
+        if o.kind != 'return':
+            continue
+        v = o.value
+        if isinstance(v, SymEnum):
+            R.inconclusive.append('module_root: symbolic Result')
+            continue
+        claim = z3.BoolVal(False) if v.variant != 0 else (v.fields[0].fields[0] == k)
+        m = R.prove('module_root', o, claim, 'module types come from the operation the module is named after')
+        if m is not None:
+            ev = lambda x: m.eval(x, model_completion=True)
+            out.append(dict(kernel='module_root', prop='C05', what='a module is generated from another operation than the one it is named after',
+                            operations=[ev(n).as_string() for n in names], module_of=ev(k).as_long(), normalization=norms[ev(norm).as_long()],
+                            result='Err' if v.variant != 0 else str(ev(v.fields[0].fields[0]))))
+    R.sample(dict(kernel='module_root', operations=nops, paths=len(outs)))
     return out
 
 
@@ -2009,7 +2060,8 @@ def k_generated_module(R):
     def setup(st, B):
         st.pc += [z3.ULT(mode, len(modes)), z3.ULT(norm, len(norms))]
         opts = B.cell(options_value(B, mode=SymEnum(mode, {i: () for i in range(len(modes))}), normalization=SymEnum(norm, {i: () for i in range(len(norms))})))
-        gm = B.struct('GeneratedModule', operation=StrV(op), query_string=StrV(qtext), resolved_query=B.cell(empty_query(B)), schema=B.cell(mini_schema(B)), options=opts)
+        gm = B.struct('GeneratedModule', operation=StrV(op), query_string=StrV(qtext), resolved_query=B.cell(empty_query(B)), schema=B.cell(mini_schema(B)), options=opts,
+                      opt_operation_id=B.newtype('OperationId', bv(0, 32)))
         R.vm.push_call(st, f, [B.cell(gm)], None, None)
     outs, _ = R.explore('GeneratedModule::to_token_stream', setup)
     R.vm.overrides = []
